@@ -731,7 +731,10 @@ pub fn c06(o: &Opts, t: &mut Tracer) -> Value {
                         };
                         let mut head = format!("HTTP/1.{} {} R\r\n", if http10 { 0 } else { 1 }, status);
                         // legal fields of no consequence ahead of the framing fields, some with empty values
-                        head.push_str(["", "X-Cache:\r\n", "Vary: \r\nX-Empty:\r\n", "Server: s\r\n", "Upgrade: websocket\r\nConnection: Upgrade\r\n", "Upgrade: h2c\r\n"][(status as usize / 5 + mi + ci + ti) % 6]);
+                        head.push_str(["", "X-Cache:\r\n", "Vary: \r\nX-Empty:\r\n", "Server: s\r\n", "Upgrade: websocket\r\nConnection: Upgrade\r\n", "Upgrade: h2c\r\n",
+                                       // entity fields that describe the content but do not delimit it; a Location that is not plain ASCII
+                                       "Content-Range: bytes 0-4/10\r\n", "Content-Type: multipart/byteranges; boundary=x\r\nContent-Range: bytes 5-9/*\r\n",
+                                       "Location: /caf\u{e9}/men\u{fc}\r\n", "Content-Location: http://cdn.test/v2\r\nContent-Encoding: gzip\r\nTrailer: X-T\r\n"][(status as usize / 5 + mi + ci + ti) % 10]);
                         let te_first = pick % 2 == 0;
                         if te_first && *te != "absent" {
                             head.push_str(&format!("Transfer-Encoding: {}\r\n", te_text));
